@@ -20,3 +20,30 @@ func VerifPulseHandoverLocks() {
 	//lint:ignore SA2001 empty critical section on purpose
 	allSegStoresLock.Unlock()
 }
+
+// VerifC11UnrotatedCmiState (harness/cmd/c11/evict.go): what the searches of the open segment(s) of one table will see of
+// the in-memory micro indexes: per open segment the flag isCmiLoaded, the number of flushed blocks (block summaries) and,
+// for every entry of unrotatedBlockCmis, the number of columns that have a micro index.  Read only.
+type VerifC11CmiState struct {
+	SegKey string
+	Loaded bool
+	Blocks int
+	Cols   []int
+}
+
+func VerifC11UnrotatedCmiState(table string) []VerifC11CmiState {
+	UnrotatedInfoLock.RLock()
+	defer UnrotatedInfoLock.RUnlock()
+	var res []VerifC11CmiState
+	for k, usi := range AllUnrotatedSegmentInfo {
+		if usi.TableName != table {
+			continue
+		}
+		s := VerifC11CmiState{SegKey: k, Loaded: usi.isCmiLoaded, Blocks: len(usi.blockSummaries)}
+		for _, m := range usi.unrotatedBlockCmis {
+			s.Cols = append(s.Cols, len(m))
+		}
+		res = append(res, s)
+	}
+	return res
+}
